@@ -193,6 +193,13 @@ func genOp(r *rand.Rand, l model.Layout, now int64, o histOpts) Op {
 		if now+d > hi {
 			d = 0
 		}
+		if r.Intn(12) == 0 {
+			// the clock steps BACK (NTP correction, another host): still inside the domain
+			back := 1 + r.Int63n(a.Ret()+int64(a.Step))
+			if now-back >= l.MaxRet()+2*l.MaxStep() {
+				d = -back
+			}
+		}
 		return Op{Kind: "advance", Delta: d, Now: now + d}
 	case c < 19 && !o.noReopen:
 		return Op{Kind: "reopen", Now: now}
